@@ -24,7 +24,13 @@ RULE = ("case = (grid, chunk size, position) or (bit triple, identifier); non-tr
 
 def cmc_items(spec_cls, size, cs, mins_list):
     from neuroglancer_scripts.sharded_base import ShardedIOError
-    vs = spec_cls([cs, cs, cs], list(size))
+    try:
+        vs = spec_cls([cs, cs, cs], list(size))
+    except Exception as e:
+        # the volume description itself was refused: every position counts as refused (TLC decides
+        # whether the grid is one the identifier can hold)
+        st = "rejected" if isinstance(e, ShardedIOError) else "exc"
+        return [{"c": list(m), "st": st, "bits": [], "cls": type(e).__name__} for m in mins_list]
     items = []
     for m in mins_list:
         coords = [m[0], m[0] + cs, m[1], m[1] + cs, m[2], m[2] + cs]
@@ -80,8 +86,14 @@ def run(ctx):
         items = cmc_items(sb.ShardVolumeSpec, size, cs, mins)
         cases.append({"kind": "cmc", "size": size, "cs": cs, "items": items, "pb": 0, "mb": 0, "sb": 0})
     # --- sampled large grids -------------------------------------------------
-    for _ in range(ctx.pick(150, 4000)):
-        g = [rng.choice([1, 2, 3, 5, 7, 100, 1000, 4097, 65536, 2 ** 20 + 1, 2 ** 21])
+    # grids whose per-axis chunk counts are exact powers of two with 62..64 identifier bits in total
+    # (the widest grids the identifier can hold)
+    directed = [[2 ** 21, 2 ** 21, 2 ** 20], [2 ** 21, 2 ** 21, 2 ** 21], [2 ** 20, 2 ** 21, 2 ** 21],
+                [2 ** 21, 2 ** 20, 2 ** 21], [2 ** 22, 2 ** 21, 2 ** 21], [2 ** 21, 2 ** 21, 2 ** 22],
+                [2 ** 16, 2 ** 24, 2 ** 24], [2 ** 21 + 1, 2 ** 21, 2 ** 20]]      # (coordinates stay below 2^31: TLC integers)
+    for k in range(ctx.pick(150, 4000)):
+        g = list(directed[k]) if k < len(directed) else \
+            [rng.choice([1, 2, 3, 5, 7, 100, 1000, 4097, 65536, 2 ** 20 + 1, 2 ** 21])
              if rng.random() < 0.7 else rng.randint(1, 2 ** 21) for _ in range(3)]
         nb = sum(max(0, (x - 1).bit_length()) for x in g)
         cs = rng.choice([1, 1, 2, 64]) if max(g) < 2 ** 20 else 1
